@@ -1,6 +1,7 @@
 package wb
 
 import (
+	"math/big"
 	"testing"
 
 	"github.com/bytemare/secp256k1/verifharness/gen"
@@ -16,6 +17,7 @@ type caseC05 struct {
 	B    pt.Spec `json:"b"`
 	Rel  string  `json:"rel"`
 	Self bool    `json:"self,omitempty"` // compare A with itself (same pointer)
+	Aim  *Aim    `json:"aim,omitempty"`  // white-box: drive one cross product of the comparison to a chosen value
 }
 
 var c05rels = []string{"same", "neg", "endo", "endo-neg", "unrelated", "vs-identity", "id-id", "self", "line", "line"}
@@ -68,6 +70,9 @@ var c05 = gen.Register(&gen.Check[caseC05]{
 		if rapid.Bool().Draw(t, "swap") {
 			c.A, c.B = c.B, c.A
 		}
+		if !c.Self && gen.Chance(t, "aim", 1, 3) {
+			c.Aim = AimGen(4).Draw(t, "aim")
+		}
 		return c
 	},
 	Fixed: func() []caseC05 {
@@ -87,7 +92,7 @@ var c05 = gen.Register(&gen.Check[caseC05]{
 			{A: pt.Spec{Base: g, Steps: []pt.Step{{Op: "dblsub"}}}, B: pt.Spec{Base: g, Steps: []pt.Step{{Op: "addsub", J: 2}}}, Rel: "same"},
 		}
 	},
-	Required: []string{"rel:line", "rel:same", "rel:neg", "rel:endo", "rel:vs-identity", "rel:id-id", "rel:unrelated", "equal", "unequal"},
+	Required: []string{"aimed-cross-product", "rel:line", "rel:same", "rel:neg", "rel:endo", "rel:vs-identity", "rel:id-id", "rel:unrelated", "equal", "unequal"},
 	Run: func(c caseC05, o *gen.Obs) error {
 		a, err := pt.Build(c.A)
 		if err != nil {
@@ -103,6 +108,14 @@ var c05 = gen.Register(&gen.Check[caseC05]{
 		}
 		if skipIfInconsistent(o, a, b) {
 			return nil
+		}
+		if c.Aim != nil && !c.Self && pt.Calibrated() && a.RawKnown && b.RawKnown {
+			// the comparison multiplies X1*Z2, X2*Z1, Y1*Z2, Y2*Z1: re-scale b so that one of them equals tau
+			cross := []*big.Int{ref.FMul(a.X, b.Z), ref.FMul(b.X, a.Z), ref.FMul(a.Y, b.Z), ref.FMul(b.Y, a.Z)}[c.Aim.I%4]
+			if tau := c.Aim.value(); cross.Sign() != 0 && tau.Sign() != 0 {
+				b = rescaleTo(b, ref.FMul(tau, ref.FInv0(cross)))
+				o.Class("aimed-cross-product")
+			}
 		}
 		o.Class("rel:" + c.Rel)
 		classify(o, "a", a)
